@@ -361,7 +361,9 @@ def run(repo, rep):
         rep.check(a.startswith('str(') and ('color' in a or stack in a), 'C16.f', 'extra-write:%s' % a, '%s:%d' % (m.relpath, w.lineno),
                   'only style strings are written besides text and line breaks',
                   'the coloured renderer writes %s besides text, line breaks and style strings' % a, nontrivial=True)
-    rep.floor('C16.f', n, 8)
+    from .c04 import utils_rules
+    n += utils_rules(repo, rep, 'C16.f')
+    rep.floor('C16.f', n, 9)
 
 
 def _anc16(node, par):
